@@ -214,6 +214,19 @@ SHAPES = [
      '    b = SecretInteger(Input(name="b", party=alice))\n    unused = SecretInteger(Input(name="unused", party=alice))\n'
      '    spare = Input(name="spare", party=alice)\n    return [Output(a + b, "s", alice)]\n',
      ["Alice"], [("a", "Alice", "SecretInteger"), ("b", "Alice", "SecretInteger"), ("unused", "Alice", "SecretInteger"), ("spare", "Alice", None)]),
+    # one output name delivered to several parties (ninth seeding round)
+    ("one-output-name-to-several-parties",
+     'from nada_dsl import *\n\ndef nada_main():\n    seller = Party(name="Seller")\n    bidders = [Party(name="Bidder" + str(i)) for i in range(3)]\n'
+     '    bids = [SecretInteger(Input(name="bid" + str(i), party=bidders[i])) for i in range(3)]\n    price = bids[0] + bids[1] * bids[2]\n'
+     '    outs = [Output(price, "price", seller)]\n    for i in range(3):\n        outs.append(Output(price, "price", bidders[i]))\n    outs.append(Output(bids[0], "first", seller))\n    return outs\n',
+     ["Seller", "Bidder0", "Bidder1", "Bidder2"], [("bid0", "Bidder0", "SecretInteger"), ("bid1", "Bidder1", "SecretInteger"), ("bid2", "Bidder2", "SecretInteger")]),
+    # a Python condition on a literal comparison chooses which value is output: both libraries accept it
+    ("literal-condition-chooses-the-output",
+     'from nada_dsl import *\n\ndef nada_main():\n    p = Party(name="P")\n    q = Party(name="Q")\n'
+     '    a = SecretInteger(Input(name="a", party=p))\n    b = PublicInteger(Input(name="b", party=p))\n'
+     '    pick = a if Integer(5) < Integer(3) else b\n    other = a if Integer(3) < Integer(5) else b\n'
+     '    return [Output(pick, "pick", q), Output(other, "other", q)]\n',
+     ["P", "Q"], [("a", "P", "SecretInteger"), ("b", "P", "PublicInteger")]),
     ("declarations-after-the-first-output",
      'from nada_dsl import *\n\ndef nada_main():\n    owner = Party(name="Owner")\n    k = PublicInteger(Input(name="k", party=owner))\n'
      '    return [Output(SecretInteger(Input(name="x" + str(i), party=Party(name="P" + str(i)))) * k, "o" + str(i), owner) for i in range(3)]\n',
